@@ -4,6 +4,11 @@ pub struct ArgMatches { _p: u8 }
 pub struct VPathArg { _p: u8 }
 impl ArgMatches {
     pub uninterp spec fn has_private_keys(&self) -> bool;
+    /// `--allow_unauthenticated_data` was given on the command line
+    pub uninterp spec fn allows_unauth(&self) -> bool;
+    /// matches.get_flag("allow_unauthenticated_data")
+    #[verifier::external_body]
+    pub fn get_flag(&self, id: &str) -> (r: bool) ensures id@ == "allow_unauthenticated_data"@ ==> r == self.allows_unauth() { unimplemented!() }
     /// matches.contains_id("private_keys")
     #[verifier::external_body]
     pub fn contains_id(&self, id: &str) -> (r: bool) ensures id@ == "private_keys"@ ==> r == self.has_private_keys() { unimplemented!() }
@@ -52,13 +57,26 @@ pub fn vpanic<T>() -> (r: T) ensures false { panic!() }
 
 /// mla::config::ArchiveReaderConfig, as far as the CLI touches it (new / add_private_keys / the public field layers_enabled)
 pub struct EncryptionReaderConfigOpaque { _p: u8 }
+impl EncryptionReaderConfigOpaque {
+    /// failsafe_mode is DataEvenUnauthenticated
+    pub uninterp spec fn unauth(&self) -> bool;
+}
 pub struct ArchiveReaderConfig { pub layers_enabled: Layers, pub encrypt: EncryptionReaderConfigOpaque }
 impl ArchiveReaderConfig {
     /// config.rs: layers_enabled: Layers::EMPTY
     #[verifier::external_body]
-    pub fn new() -> (r: ArchiveReaderConfig) ensures r.layers_enabled.bits == 0 { unimplemented!() }
+    /// ASSUMED: a fresh configuration is in the only-authenticated repair mode (`#[derive(Default)]` with `#[default]` on
+    /// FailSafeReaderDecryptionMode::OnlyAuthenticatedData; exercised on the real code by probe_fresh_reader_config_repairs_only_authenticated_data)
     #[verifier::external_body]
-    pub fn add_private_keys(&mut self, keys: &VPrivateKeys) ensures final(self).layers_enabled == old(self).layers_enabled { unimplemented!() }
+    pub fn new() -> (r: ArchiveReaderConfig) ensures r.layers_enabled.bits == 0, !r.encrypt.unauth() { unimplemented!() }
+    /// CONTRACT PROVED IN UNIT enc_cfg (cfg.add_private_keys.keeps_the_repair_mode)
+    #[verifier::external_body]
+    pub fn add_private_keys(&mut self, keys: &VPrivateKeys)
+        ensures final(self).layers_enabled == old(self).layers_enabled, final(self).encrypt.unauth() == old(self).encrypt.unauth() { unimplemented!() }
+    /// CONTRACT PROVED IN UNIT enc_cfg (cfg.mode.even_unauthenticated_*); the `&mut Self` it returns for chaining is not modelled
+    #[verifier::external_body]
+    pub fn failsafe_return_data_even_unauthenticated(&mut self)
+        ensures final(self).layers_enabled == old(self).layers_enabled, final(self).encrypt.unauth() { unimplemented!() }
 }
 /// mla::ArchiveReader::from_config -- CONTRACT PROVED IN UNIT from_config (clauses fmt.reader_layer_order and
 /// cfg.reader.layers_are_the_header_bits): the layers of the reader are the bits recorded in the header of the source, and the
@@ -74,5 +92,16 @@ impl ArchiveReader {
                 let s1 = if has_encrypt(r->Ok_0.layers@) { s0.push(layer_encrypt()) } else { s0 };
                 if has_compress(r->Ok_0.layers@) { s1.push(layer_compress()) } else { s1 }
             }),
+    { unimplemented!() }
+}
+
+/// mla::ArchiveFailSafeReader::from_config -- CONTRACT PROVED IN UNIT from_config (clause repair.from_config.mode_is_the_callers_mode):
+/// the decryption layer of the repair reader works in the mode of the configuration it is given
+pub struct ArchiveFailSafeReader { pub layers: Ghost<Layers>, pub unauth: Ghost<bool> }
+impl ArchiveFailSafeReader {
+    #[verifier::external_body]
+    pub fn from_config(src: VFile, config: ArchiveReaderConfig) -> (r: Result<ArchiveFailSafeReader, Error>)
+        requires src.wf(),
+        ensures (r is Ok && has_encrypt(r->Ok_0.layers@)) ==> r->Ok_0.unauth@ == config.encrypt.unauth(),
     { unimplemented!() }
 }
